@@ -23,7 +23,7 @@ ASSUMPTIONS = [
     "fake Device/Storage/Interface classes are the repository's test fakes (tests/annet/test_mesh/fakes.py)",
     "handlers set address families and shared options on the session only (per-peer families would legitimately differ between the two ends)",
 ]
-FLOORS = {"quick": {"topologies": 250, "executions": 3000, "mirrored_pairs": 600, "permutations_compared": 1500, "conflicts_expected": 30, "merge_law_checks": 3000, "shared_handler_constants_checked": 200, "peer_options_checked": 300, "shared_executor_runs": 150, "shared_executor_runs_with_differently_named_link_ends": 80, "linklocal_cases_with_two_neighbours_sharing_an_address": 25, "cases_with_family_only_device_handlers": 60, "family_only_handler_devices": 60},
+FLOORS = {"quick": {"topologies": 250, "executions": 3000, "mirrored_pairs": 600, "permutations_compared": 1500, "conflicts_expected": 30, "merge_law_checks": 3000, "shared_handler_constants_checked": 200, "peer_options_checked": 300, "shared_executor_runs": 150, "shared_executor_runs_with_differently_named_link_ends": 80, "linklocal_cases_with_two_neighbours_sharing_an_address": 25, "cases_with_family_only_device_handlers": 60, "family_only_handler_devices": 60, "cases_with_full_names_and_an_included_registry": 30},
           "thorough": {"topologies": 9000, "executions": 100000, "mirrored_pairs": 20000, "permutations_compared": 50000, "conflicts_expected": 1000, "merge_law_checks": 100000, "shared_handler_constants_checked": 7000, "peer_options_checked": 10000, "shared_executor_runs": 5000, "shared_executor_runs_with_differently_named_link_ends": 2500, "linklocal_cases_with_two_neighbours_sharing_an_address": 800}}
 
 
@@ -166,9 +166,10 @@ def shared_families(rules, idx):
     return SHARED_FAMILIES[key]
 
 
-def make_registry(rules, order):
+def make_registry(rules, order, fq=False):
+    """fq: devices carry full names (`spine1.dc.example`); the rules live in a registry that a top-level registry includes, both matching short names"""
     from annet.mesh import MeshRulesRegistry, separate_ports, united_ports, Left, Right
-    reg = MeshRulesRegistry()
+    reg = MeshRulesRegistry(match_short_name=True) if fq else MeshRulesRegistry()
     for idx in order:
         r = rules[idx]
         if r["type"] == "direct":
@@ -252,6 +253,10 @@ def make_registry(rules, order):
                 dev.vrf[r["vrf"]].rt_import = (r["rt"],)
                 dev.vrf[r["vrf"]].groups["G"].mtu = 1400
             reg.device(r["mask"])(dhandler)
+    if fq:
+        top = MeshRulesRegistry(match_short_name=True)
+        top.include(reg)
+        return top
     return reg
 
 
@@ -281,7 +286,7 @@ def run_all(topo, rules, order):
     out = {}
     for name in topo["devices"]:
         st, devs = build_topology(topo)
-        reg = make_registry(rules, order)
+        reg = make_registry(rules, order, bool(topo.get("fq")))
         try:
             res = MeshExecutor(reg, st).execute_for(devs[name])
             peers = sorted((canon_peer(p) for p in res.peers), key=lambda p: (p["hostname"], p["addr"], p["vrf"]))
@@ -302,7 +307,7 @@ def run_shared(topo, rules, order, dev_order):
     """one storage and ONE executor serving every device in turn (what a generator run over many devices does)"""
     from annet.mesh import MeshExecutor
     st, devs = build_topology(topo)
-    ex = MeshExecutor(make_registry(rules, order), st)
+    ex = MeshExecutor(make_registry(rules, order, bool(topo.get("fq"))), st)
     out = {}
     for name in dev_order:
         try:
@@ -325,7 +330,7 @@ def tmatch(mask, name):
     """own reading of a peer name template: {g} = digits, {g:regex} = regex"""
     rx = re.sub(r"{(\w+)}", r"(?P<\1>\\d+)", mask)
     rx = re.sub(r"{(\w+):(.*?)}", r"(?P<\1>\2)", rx)
-    m = re.fullmatch(rx, name)
+    m = re.fullmatch(rx, name.split(".")[0])  # (full names are matched by their host part)
     return None if m is None else {k: v for k, v in m.groupdict().items()}
 
 
@@ -355,6 +360,13 @@ def check_case(seed, acc, ll=False, ext=False):
     rng = random.Random(seed)
     topo = gen_topology(rng)
     rules = gen_rules(rng, topo)
+    if ext and seed % 2:
+        # full device names and an included registry
+        ren = {d: d + ".dc.example" for d in topo["devices"]}
+        topo["devices"] = [ren[d] for d in topo["devices"]]
+        topo["links"] = [[ren[a], ren[b], k] for a, b, k in topo["links"]]
+        topo["fq"] = True
+        acc.count("cases_with_full_names_and_an_included_registry")
     if ext:
         erng = random.Random(seed ^ 0xE87)
         drs = [r_ for r_ in rules if r_["type"] == "direct" and r_["role"] == "base"]
